@@ -149,7 +149,7 @@ def escape_project(seed, i):
     p = projgen.gen_project(seed + 1300, i, projgen.profile(p_escape=0.0, p_tasks=0.0, p_custom_build=0.0, p_download=0.0, p_cycle=0.0,
                                                             p_varopts=0.0, p_cli_define=0.0, p_hard_missing=0.0, n_apps=(1, 2)))
     root = p["files"]["laze-project.yml"][0]
-    default = root["contexts"][0]
+    default = __import__("lazeverif.projcheck", fromlist=["x"]).default_context(p)
     tag = f"LIT{i}"
     where = rng.choice(["context-env", "module-global", "module-local", "rule-cmd", "task-cmd"])
     apps = [m for k, m, path in __import__("lazeverif.projcheck", fromlist=["x"]).yaml_modules(p) if k == "apps"]
